@@ -29,7 +29,7 @@ ASSUMPTIONS = ['fields are 0-d or 2-d with positive dimensions; integer offsets'
 RULE = ('corpus first, then random and (thorough) exhaustive small-scope cases over ops '
         '{mul, merge, reduce, insert, extent queries, array_extent, boundary, Wavefront.field/intensity}; '
         'histories: the same Field objects used by 2-4 merge/reduce/intensity/insert/mul calls (a field spanning the others '
-        'listed first, 0-d fields at the origin, ...), each call compared on the ORIGINAL data + operands unchanged by value; extent histories: array_extent asked about one (shape, shift) 2-4 times relative to the origin and to different parents in every order, then a Field there (extent, product); mul/merge/reduce/boundary configurations carried to offsets beyond 2**53 / 2**60 (exact integers); '
+        'listed first, 0-d fields at the origin, ...), each call compared on the ORIGINAL data + operands unchanged by value; extent histories: array_extent asked about one (shape, shift) 2-4 times relative to the origin and to different parents in every order, then a Field there (extent, product); mul/merge/reduce/boundary configurations carried to offsets beyond 2**53 / 2**60 (exact integers); extent queries with the extents spelled as int8/int16/int32 arrays or scalars near the end of the range of the dtype (every result fits); '
         'every Field built with the offset as list/tuple/ndarray/numpy ints/None and data as complex/real/int/Python values or '
         'as an ndarray subclass (masked with/without flags, np.matrix, metadata subclass, memmap; caller memory unchanged); '
         'cases with all data scaled by 2^-30..2^-43 and the results un-scaled; fields with > 2**20 samples against numpy canvases; '
@@ -469,10 +469,30 @@ def _generate(rng, tier):
             def ext():
                 r0, c0 = rng.randint(-5, 5), rng.randint(-5, 5)
                 return [r0, r0 + rng.randint(0, 4), c0, c0 + rng.randint(0, 4)]
-            yield {'op': 'extq', 'a': ext(), 'b': ext()}
+            c = {'op': 'extq', 'a': ext(), 'b': ext()}
+            if rng.random() < 0.45:
+                # the extents spelled as small-width numpy integers, placed where every coordinate and every RESULT fits
+                # the dtype but sums of two coordinates do not
+                dt = rng.choice(['int8', 'int16', 'int32'])
+                top = {'int8': 127, 'int16': 32767, 'int32': 2 ** 31 - 1}[dt]
+                base = rng.choice([1, -1]) * (top - rng.randint(12, 40 if dt == 'int8' else 400))
+                sgn = 1 if base > 0 else -1
+                dr, dc = base - sgn * rng.randint(0, 6), base - sgn * rng.randint(0, 6)
+                for key in ('a', 'b'):
+                    e = c[key]
+                    c[key] = [e[0] + dr, e[1] + dr, e[2] + dc, e[3] + dc]
+                assert all(abs(v) <= top - 2 for key in ('a', 'b') for v in c[key])
+                c['edt'], c['espell'] = dt, rng.choice(['array', 'array', 'scalars', 'list_of_scalars'])
+            yield c
         elif t < 0.88:
-            yield {'op': 'aext', 'shape': [rng.randint(1, 7), rng.randint(1, 7)],
-                   'shift': [rng.randint(-6, 6), rng.randint(-6, 6)]}
+            c = {'op': 'aext', 'shape': [rng.randint(1, 7), rng.randint(1, 7)],
+                 'shift': [rng.randint(-6, 6), rng.randint(-6, 6)]}
+            if rng.random() < 0.4:       # shape and shift as small-width numpy integers, the extent still inside the dtype
+                dt = rng.choice(['int8', 'int16', 'int32'])
+                top = {'int8': 127, 'int16': 32767, 'int32': 2 ** 31 - 1}[dt]
+                c['shift'] = [rng.choice([1, -1]) * (top - rng.randint(10, 30)), rng.choice([1, -1]) * (top - rng.randint(10, 30))]
+                c['edt'], c['espell'] = dt, rng.choice(['array', 'scalars'])
+            yield c
         elif t < 0.92:
             k = rng.randint(1, 4)
             yield {'op': 'boundary', 'fs': [rnd_field(rng, offr=6) for _ in range(k)]}
@@ -507,6 +527,8 @@ def classify(c):
         return c['op'] + ('/scaled' if c.get('sc') else '') + ('/subclass' if c.get('osub') or any(f.get('sub') for f in fields_of(c)) else '')
     if c.get('far'):
         return c['op'] + '/far'
+    if c.get('edt'):
+        return c['op'] + '/' + c['edt'] + '-' + c['espell']
     if c['op'] == 'aexth':
         return 'aexth/' + '-'.join('o' if p is None else 'p' for p in c['parents'])
     if c['op'] == 'hist':
@@ -747,6 +769,11 @@ def _run_ops(c, mk=None):
             return {'arr': [[[v.real, v.imag] for v in row] for row in res.tolist()]}
         if op == 'extq':
             a, b = tuple(c['a']), tuple(c['b'])
+            if c.get('edt'):
+                dt = getattr(np, c['edt'])
+                spell = {'array': lambda e: np.array(e, dtype=dt), 'scalars': lambda e: tuple(dt(v) for v in e),
+                         'list_of_scalars': lambda e: [dt(v) for v in e]}[c['espell']]
+                a, b = spell(a), spell(b)
             (ar, ac), (br, bc) = E.intersection_slices(a, b)
             sh = E.intersection_shape(a, b)
             return {'intersect': bool(E.intersect(a, b)), 'shape': [int(x) for x in sh] if len(sh) else None,
@@ -755,7 +782,12 @@ def _run_ops(c, mk=None):
                     'shift': [int(x) for x in E.intersection_shift(a, b)],
                     'center_a': [int(x) for x in E.array_center(a)]}
         if op == 'aext':
-            return {'extent': [int(x) for x in E.array_extent(tuple(c['shape']), tuple(c['shift']))]}
+            sh, sf = tuple(c['shape']), tuple(c['shift'])
+            if c.get('edt'):
+                dt = getattr(np, c['edt'])
+                sh, sf = ((np.array(sh, dtype=dt), np.array(sf, dtype=dt)) if c['espell'] == 'array'
+                          else (tuple(dt(v) for v in sh), tuple(dt(v) for v in sf)))
+            return {'extent': [int(x) for x in E.array_extent(sh, sf)]}
         if op == 'boundary':
             return {'extent': [int(x) for x in F.boundary([mk_field(f) for f in c['fs']])]}
         if op in ('wfield', 'wintensity'):
